@@ -9,6 +9,37 @@ ideal symbolic scheme). The harness audits the property itself on a re-opened fi
 """
 
 
+def judge_known_unshrunk(ctx, res, theorem_hint):
+    """Like ctx.judge, but violations whose key is a listed known finding are not delta-debugged again on every run
+    (each shrink step re-executes the whole scenario); anything else goes through the normal path."""
+    import json
+    import os
+    import re
+    import vcheck
+    pats = []
+    kf = os.path.join(vcheck.ROOT, "known_findings.json")
+    if os.path.exists(kf):
+        pats = [e["match"] for e in json.load(open(kf)).get("findings", [])
+                if e.get("property") == ctx.pid and e.get("status") == "known"]
+    known = [v for v in res["viol"] if any(re.fullmatch(p, v["key"]) for p in pats)]
+    other = [v for v in res["viol"] if v not in known]
+    hc = res.get("harness_cmd")
+    if known:
+        r1 = dict(res)
+        r1["viol"], r1["mismatches"], r1["harness_cmd"] = known, [], None
+        r1.pop("driver_error", None)
+        ctx.judge(r1, theorem_hint=theorem_hint)
+        for v in ctx.violations:
+            if v.replay is not None and v.replay.get("harness_cmd") is None:
+                v.replay["harness_cmd"] = hc
+    r2 = dict(res)
+    r2["viol"] = other
+    if known and not other and res["mismatches"]:
+        # a model/implementation disagreement next to known findings is still reported
+        r2["viol"] = []
+    ctx.judge(r2, theorem_hint=theorem_hint)
+
+
 def run(ctx):
     ctx.level = "proof"
     ctx.assumptions += [
@@ -23,5 +54,5 @@ def run(ctx):
     drv = ctx.build_driver("drv_wallet")
     if hbin:
         res = ctx.correspondence("wallet", hbin, ["wallet"], drv, ["wallet"])
-        ctx.judge(res, theorem_hint="Poly.Props.C43.* (model Poly.Model.Wallet no longer matches account/client.go)")
+        judge_known_unshrunk(ctx, res, "Poly.Props.C43.* (model Poly.Model.Wallet no longer matches account/client.go)")
     ctx.judge_lean()
